@@ -20,6 +20,7 @@ def main():
     try:
         mod = importlib.import_module('specs.' + a.unit)
         core.DEFAULT_PROPS[:] = list(getattr(mod, 'PROPS', []))
+        if getattr(mod, 'REPLAY', None): core.DEFAULT_REPLAY['replay'] = dict(mod.REPLAY)
         src = core.Source(edits=[tuple(e.split('=>', 1)) for e in a.edit])
         info = mod.generate(src) or {}
         rep['functions'] = src.functions
